@@ -319,15 +319,30 @@ def r_union_first(ck: Checker) -> None:
     union_rets = [lf for lf in leaves if lf.assign.get(k_union) is True and lf.outcome == "return" and lf.value is not None
                   and list(lf.assign).index(k_union) == len(lf.assign) - 1]
     verdict = None
+    # a positive pattern: on a path that established "optional / union", the answer is the conformance to ONE selected member
+    k_opt = f"is_optional({t})"
+    for lf in leaves:
+        if lf.outcome == "return" and lf.value is not None and (lf.assign.get(k_opt) is True or lf.assign.get(k_union) is True):
+            for c in ast.walk(lf.value):
+                if isinstance(c, ast.Call) and dotted(c.func) == "is_instance" and len(c.args) == 2:
+                    sel = c.args[1]
+                    if (isinstance(sel, ast.Call) and dotted(sel.func) == "next") or (isinstance(sel, ast.Subscript) and norm(sel.value) == f"get_args({t})"):
+                        if not any(isinstance(p_, (ast.GeneratorExp, ast.ListComp)) and any(x is c for x in ast.walk(p_)) for p_ in ast.walk(lf.value)):
+                            verdict = (f"is_instance: a union / optional annotation is decided by the conformance to one selected member ({norm(sel)[:60]}): "
+                                       "a value that conforms to another member is rejected")
     for lf in union_rets:
         got = alpha(lf.value)
+        if verdict is not None and verdict.startswith("is_instance: a union / optional"):
+            break
         if got == want:
             verdict = verdict or "ok"
         elif f"get_args({t})[" in got or got.startswith("all("):
             verdict = f"is_instance: a union is decided by {got[:60]} (not by `any` member conforming)"
         elif verdict in (None, "ok"):
             verdict = "?" + got[:60]
-    if verdict == "ok":
+    if verdict is not None and verdict.startswith("is_instance: a union / optional"):
+        ck.violation("R-UNION-FIRST", f, f.node, what, construct=verdict)
+    elif verdict == "ok":
         ck.holds("R-UNION-FIRST", f, f.node, what)
     elif verdict is None or verdict.startswith("?"):
         raise Unsupported(f"is_instance: the union arm is not of a recognised form ({(verdict or '?no return decided by is_union')[1:]})", f.node)
